@@ -1,6 +1,7 @@
 import RoaringModel.Lemmas.TreemapIterAdvance
 import RoaringModel.Lemmas.TreemapIntoIter
 import RoaringModel.Lemmas.TreemapIter32
+import RoaringModel.Lemmas.TreemapIterFold
 import RoaringModel.SpecCursor64
 /-!
 # C12 — 64-bit iteration is an exact ascending double-ended cursor (property theorems)
@@ -144,6 +145,33 @@ theorem C12_intoIter (t : Treemap) (hw : TWF t) :
         it.sizeHintPair = (Spec.Cursor64.sizeHint (it.rem S32), some (Spec.Cursor64.sizeHint (it.rem S32))))) :=
   C12_intoIter_partial S32 t hw
 
+/-- **The specialised `IntoIter::fold` / `rfold` / `len`** (iter.rs:328, 344, 353 — what the driver runs for `jfold`,
+    `jrfold`, `jlen` on an owning iterator; *not* loops over `next`): in every reachable state, `fold` visits exactly
+    the remaining values in ascending order and `rfold` in descending order, for every closure and initial value
+    (the values are rebuilt with `+`, not `|`); both equal the default `next()` / `next_back()` loops
+    (`IntoIter.foldNext` / `rfoldNextBack`, any sufficient fuel); `len()` (`size_hint as usize`) is the exact
+    number of remaining values and agrees with `size_hint().0`. -/
+theorem C12_intoIter_fold {β : Type} (it : IntoIter K32) (h : it.Inv S32) (init : β) (f : β → Nat → β) :
+    it.fold init f = (it.rem S32).foldl f init ∧
+    it.rfold init f = (it.rem S32).reverse.foldl f init ∧
+    (∀ fuel, (it.rem S32).length ≤ fuel → it.fold init f = IntoIter.foldNext f fuel it init) ∧
+    (∀ fuel, (it.rem S32).length ≤ fuel → it.rfold init f = IntoIter.rfoldNextBack f fuel it init) ∧
+    ((it.rem S32).length < 18446744073709551616 →
+      it.exactLen = (it.rem S32).length ∧ it.exactLen = it.sizeHintPair.1) :=
+  ⟨IntoIter.fold_spec it h init f, IntoIter.rfold_spec it h init f,
+   fun fuel hf => IntoIter.fold_mirror_eq it h init f fuel hf,
+   fun fuel hf => IntoIter.rfold_mirror_eq it h init f fuel hf,
+   fun hfit => ⟨IntoIter.exactLen_spec S32 it h hfit, IntoIter.exactLen_eq it (by rw [h.size]; exact hfit)⟩⟩
+
+/-- from a fresh `into_iter()`: `fold` visits all values of the treemap ascending, `rfold` descending -/
+theorem C12_intoIter_fold_new {β : Type} (t : Treemap) (hw : TWF t) (init : β) (f : β → Nat → β) :
+    (IntoIter.new (K := K32) t).fold init f = (elems t).foldl f init ∧
+    (IntoIter.new (K := K32) t).rfold init f = (elems t).reverse.foldl f init := by
+  obtain ⟨h1, h2, _⟩ := C12_intoIter t hw
+  have := C12_intoIter_fold (IntoIter.new (K := K32) t) h1 init f
+  rw [h2] at this
+  exact ⟨this.1, this.2.1⟩
+
 /-- `bitmaps()` yields the partitions in key order from the front and in reverse from the back. -/
 theorem C12_bitmaps (t : Treemap) :
     (PIter.new t).range = t ∧
@@ -187,5 +215,12 @@ theorem tEx_TWF : TWF tEx := by
       exact ⟨by decide, ⟨by unfold Roaring.Sorted; decide, by decide⟩, by decide, by decide⟩⟩, by decide⟩
 /-- … and the same call on the mirrored 32-bit iterator -/
 example : ((TIter.Iter.new (K := K32) tEx).advanceTo 4294967306).next.2 = some 8589934595 := by decide
+/-- non-vacuity of `C12_intoIter_fold`: after one `next` and one `next_back` on `into_iter()`, the specialised
+    `fold` / `rfold` collect the three values in between, and `len()` is 3 -/
+example : ((IntoIter.new (K := K32) tEx).next.1.nextBack.1).fold [] (fun acc v => acc ++ [v]) =
+      [5, 8589934595, 8589934642] ∧
+    ((IntoIter.new (K := K32) tEx).next.1.nextBack.1).rfold [] (fun acc v => acc ++ [v]) =
+      [8589934642, 8589934595, 5] ∧
+    ((IntoIter.new (K := K32) tEx).next.1.nextBack.1).exactLen = 3 := by decide
 
 end Roaring.C12
